@@ -241,6 +241,9 @@ func runHistory(rep *vk.Report, idx int, path string, sessions int, deep bool) {
 			class := "C04/differs-after-reopen/" + diffKind(d[0])
 			if onlyAddedIndexRows(d, builtOnData) {
 				class += "/index-added-to-populated-table"
+				if onlyMoreRowsAfter(d) {
+					class += "/deleted-rows-kept" // the signature of the known persist-skip finding
+				}
 			}
 			rep.Violate(class, key, map[string]any{"session": s, "diff": d, "history": h.Tail(600)})
 			return
@@ -302,6 +305,22 @@ func onlyAddedIndexRows(d []string, builtOnData map[string]bool) bool {
 		}
 	}
 	return len(d) > 0
+}
+
+// onlyMoreRowsAfter: every "row sequence differs: N rows vs M rows" line has M > N
+// (rows that were deleted before the close are back).
+func onlyMoreRowsAfter(d []string) bool {
+	for _, line := range d {
+		i := strings.Index(line, "row sequence differs: ")
+		if i < 0 {
+			return false
+		}
+		var n, m int
+		if c, _ := fmt.Sscanf(line[i:], "row sequence differs: %d rows vs %d rows", &n, &m); c != 2 || m <= n {
+			return false
+		}
+	}
+	return true
 }
 
 // compositeFkWithEmptyTrailingField: the model holds a row whose multi-column foreign key
